@@ -11,13 +11,16 @@ CONSTANTS MaxHeaders       \* how many forwarding headers a request carries at m
 
 Vocab == [ atoms |-> [ none |-> "" ] ]
 
-FwdHeaders == {"X-Forwarded-Host", "X-Forwarded-Proto", "X-Forwarded-Uri"}
+\* "Others": a bundle of further forwarding-style headers sent together (X-Forwarded-Method, -Port, -Prefix, -Server, -Scheme, -Ssl,
+\* X-Original-URL, X-Rewrite-URL, Forwarded) - nothing in the proxy should ever depend on them, in either mode
+FwdHeaders == {"X-Forwarded-Host", "X-Forwarded-Proto", "X-Forwarded-Uri", "Others"}
 IPHeaders  == {"X-Forwarded-For", "X-Real-IP", "X-ProxyUser-IP", "X-Envoy-External-Address", "CF-Connecting-IP"}
 Headers    == FwdHeaders \cup IPHeaders
 \* two values per header: one that would matter if honoured in the "good" direction, one in the "bad" direction
 Values(h) == CASE h = "X-Forwarded-Host"  -> {"whitelisted", "foreign"}
                [] h = "X-Forwarded-Proto" -> {"https", "http"}
                [] h = "X-Forwarded-Uri"   -> {"skipauth", "proxyprefixed"}
+               [] h = "Others"            -> {"benign", "hostile"}
                [] OTHER                   -> {"trusted", "untrusted"}
 
 Endpoints == {"protected", "authonly", "start", "sign_in", "sign_out", "callback"}
@@ -51,8 +54,8 @@ Init == \E ep \in Endpoints, cr \in Creds, cf \in Cfgs, S \in HdrSets, mode \in 
             /\ (mode = "off" /\ iph # "X-Real-IP" => cf = "plain" /\ host = "on" /\ conn = "plain" /\ ep \in {"protected", "authonly"} /\ S \subseteq IPHeaders)
             /\ (mode = "on_other_ip" => S \subseteq (IPHeaders \ {iph}) /\ cf = "plain" /\ ep \in {"protected", "authonly"})
             /\ c = [endpoint |-> ep, cred |-> cr, cfg |-> cf, mode |-> mode, ipHeader |-> iph, host |-> host, conn |-> conn,
-                    hdr |-> [h \in S |-> IF hv[h] = "a" THEN CHOOSE v \in Values(h) : \A w \in Values(h) : v = w \/ v \in {"whitelisted", "https", "skipauth", "trusted"}
-                                         ELSE CHOOSE v \in Values(h) : v \notin {"whitelisted", "https", "skipauth", "trusted"}]]
+                    hdr |-> [h \in S |-> IF hv[h] = "a" THEN CHOOSE v \in Values(h) : \A w \in Values(h) : v = w \/ v \in {"whitelisted", "https", "skipauth", "trusted", "benign"}
+                                         ELSE CHOOSE v \in Values(h) : v \notin {"whitelisted", "https", "skipauth", "trusted", "benign"}]]
 Next == UNCHANGED c
 
 \* model-level statement: with the headers the effective values are what they are without them
